@@ -47,21 +47,22 @@ def number_fits(value, cell_type):
 
 def format_number(n, n_type):
     'Convert the given number to a string, the way QB used to do.'
-    if n_type == CellType.SINGLE:
-        n = ctypes.c_float(n).value
-        sn = str(n)
-        if '.' in sn and 'e' not in sn:
-            digits = len(sn) - 1
-            before_decimal = sn.index('.')
-            desired_total_digits = 7
-            n = round(n, ndigits=desired_total_digits-before_decimal)
-    s = str(n)
-    if s.endswith('.0'):
-        s = s[:-2]
-    if 'e' in s and n_type == CellType.DOUBLE:
-        s = s.replace('e', 'D')
-    elif 'e' in s:
-        s = s.replace('e', 'E')
+    if n_type in (CellType.SINGLE, CellType.DOUBLE):
+        if n == 0:
+            # also covers negative zero
+            n = 0
+            s = '0'
+        else:
+            # correctly rounded to the precision QB shows: 7
+            # significant digits for SINGLE, 16 for DOUBLE; the g
+            # format drops trailing zeros and switches to an exponent
+            # for very large and very small magnitudes
+            digits = 7 if n_type == CellType.SINGLE else 16
+            s = '%.*g' % (digits, n)
+            exp_char = 'E' if n_type == CellType.SINGLE else 'D'
+            s = s.replace('e', exp_char)
+    else:
+        s = str(n)
 
     if n >= 0:
         s = ' ' + s
